@@ -234,3 +234,34 @@ _ROUND3 = {
 for _k, _v in _ROUND3.items():
     if _k in CHECKS:
         CHECKS[_k]['text'] = CHECKS[_k]['text'].rstrip() + ' ' + _v
+
+
+# ---- rules added in the fourth round (build session 3)
+_ROUND4 = {
+    'C01': 'Round 4: what the listener captures of a note / rest is what is exported (C03.R2 as R9, the BarToken constructor included).',
+    'C02': 'Round 4: no token class and no step of Importer.run rewrites the text of a cell (R8); a global comment is one node (R9); the text handed '
+           'to the line reader is the caller\'s (R7).',
+    'C03': 'Round 4: signifiers are dropped only by equality de-duplication (C01.R2 as R11); token constructors and record cells keep the text as '
+           'written; the stage loop runs to its last stage.',
+    'C04': 'Round 4: writer / reader agreement on the decoration separator (R3 separator-marks-signifiers); no exported note text is filtered out '
+           'of a chord.',
+    'C05': 'Round 4: what is left after the filter keeps the canonical order (C01.R1 as R7), every cell of every line goes through the gate (R8), every '
+           'note of a chord keeps its place (R9).',
+    'C06': 'Round 4: the options the caller gave reach the exporter unchanged (C14.R2 as R6).',
+    'C07': 'Round 4: the stage loop is never left early; the measure index only grows (no entry rewritten).',
+    'C08': 'Round 4: preamble cells come from the spines alive at from_stage (R10); get_last_spine_operator truth table (R11); who may write a '
+           'signature context (R1).',
+    'C09': 'Round 4: tables generated by pure functions are computed by the checker\'s own interpreter and checked like literal tables.',
+    'C10': 'Round 4: which sub-spine a join continues (C02.R3/R5 as R9) and per-node copies of the signature context (R6) decide the clef in force.',
+    'C12': 'Round 4: no constructor in the chain of ErrorToken can raise; cells reach the importer as written.',
+    'C14': 'Round 4: no mutable default value is kept, changed or handed out (R4).',
+    'C15': 'Round 4: exports leave nothing on the nodes shared with the source (R8); a walk over the stage table takes every node (R6).',
+    'C16': 'Round 4: the accidentals text is computed for every name the name setter accepts (up to three sharps / flats), not only for the table.',
+    'C18': 'Round 4: accepted categories beyond the shared structure that the kern listener builds from the matched prefix (R2); the line reader and '
+           'token constructors keep the cell text (R10); no unpacked split outside the catch-all (R1).',
+    'C19': 'Round 4: the measure index only grows, so prefix counts agree with the index of the whole text.',
+    'C20': 'Round 4: dump written as dumps + write is followed (R3); conversions leave nothing behind for the next file (R7).',
+}
+for _k, _v in _ROUND4.items():
+    if _k in CHECKS:
+        CHECKS[_k]['text'] = CHECKS[_k]['text'].rstrip() + ' ' + _v
